@@ -3,7 +3,7 @@ use crate::fixer::{Fixer, FixerError, SerializableFixer};
 use crate::rule::referent_rule::RuleRegistration;
 use crate::rule::Rule;
 use crate::rule::{RuleSerializeError, SerializableRule};
-use crate::transform::{Transform, TransformError, Transformation};
+use crate::transform::{Applying, Transform, TransformError, Transformation};
 use crate::DeserializeEnv;
 
 use ast_grep_core::language::Language;
@@ -214,6 +214,7 @@ impl<L: Language> RuleCore<L> {
     node: Node<'tree, D>,
     env: &mut Cow<MetaVarEnv<'tree, D>>,
     enclosing_env: Option<&MetaVarEnv<'tree, D>>,
+    applying: Option<&Applying>,
   ) -> Option<Node<'tree, D>> {
     if let Some(kinds) = &self.kinds {
       if !kinds.contains(node.kind_id().into()) {
@@ -230,10 +231,10 @@ impl<L: Language> RuleCore<L> {
       let rewriters = self.registration.get_rewriters();
       let new_env = new_env.to_mut();
       if let Some(enclosing) = enclosing_env {
-        trans.apply_transform(new_env, rewriters, enclosing);
+        trans.apply_transform_in(new_env, rewriters, enclosing, applying);
       } else {
         let enclosing = new_env.clone();
-        trans.apply_transform(new_env, rewriters, &enclosing);
+        trans.apply_transform_in(new_env, rewriters, &enclosing, applying);
       };
     }
     *env = Cow::Owned(new_env.into_owned());
@@ -267,7 +268,7 @@ impl<L: Language> Matcher<L> for RuleCore<L> {
     node: Node<'tree, D>,
     env: &mut Cow<MetaVarEnv<'tree, D>>,
   ) -> Option<Node<'tree, D>> {
-    self.do_match(node, env, None)
+    self.do_match(node, env, None, None)
   }
 
   fn potential_kinds(&self) -> Option<BitSet> {
